@@ -48,7 +48,7 @@ def make_case(rng: Rng) -> Dict[str, Any]:
     case: Dict[str, Any] = {'kind': kind}
     if kind == 'generated':
         prof = W.profile(reexport=0.6, roots=(1, 2), cyclic=rng.sub('cyc').chance(0.3), star=0.4, nested=0.3, fields=0.3,
-                         zope=0.15, dup=0.3, dup_mixed=True, submodule_clash=0.25, module_reexport=0.2)
+                         zope=0.15, dup=0.3, dup_mixed=True, submodule_clash=0.25, module_reexport=0.2, docassign=0.3, docassign_modules=True)
         world = W.gen_world(rng.sub('world'), prof)
         case['world'] = world
         case['files'] = W.world_files(world)
